@@ -200,6 +200,14 @@ def judge_images(ctx, job, out, stuck, kind=None, name=None):
         ctx.violation(sig, f'macro program and {what}: {desc}',
                       dict(replay, observed={'a': ia, name: ix},
                            required='identical Reader(...).memory, memory_segments and zero ranges'))
+    # no inlining exists (unknown macro / arity, nesting deeper than allowed, a number where a label is declared):
+    # the macro program must be rejected
+    if stuck is not None and ia['ok'] and (stuck.startswith('unknown macro') or stuck.startswith('nesting deeper')
+                                           or stuck.startswith('a non-name')):
+        ok = False
+        ctx.violation({'kind': 'assembles-without-inlining', 'why': stuck.split(' (')[0][:30]},
+                      f'the macro program assembles although it has no inlining ({stuck})',
+                      dict(replay, observed={'a': ia}, required='rejected'))
     return ok
 
 
